@@ -257,8 +257,8 @@ v("C13", "seed_filter_diverges", [("src/fixtures/scanner.rs",
   "                        n == \"conftest.py\"\n                            || (n.starts_with(\"test_\") && n.ends_with(\".py\"))\n                            || n.ends_with(\"_tests.py\")")],
   r"R10b\|")
 v("C14", "assignment_fixture_not_editable_third_party", [("src/fixtures/analyzer.rs",
-  "                            let is_third_party =\n                                file_path.to_string_lossy().contains(\"site-packages\")\n                                    || self.is_editable_install_third_party(file_path);",
-  "                            let is_third_party =\n                                file_path.to_string_lossy().contains(\"site-packages\");")],
+  "                            let is_third_party = self.is_in_site_packages(file_path)\n                                || self.is_editable_install_third_party(file_path);",
+  "                            let is_third_party = self.is_in_site_packages(file_path);")],
   r"R10c\|.*\|is_third_party")
 v("C14", "mark_after_analysis", [("src/fixtures/scanner.rs",
   "        self.plugin_fixture_files.insert(canonical.clone(), ());\n\n        // Prefer the cached text (the editor buffer once the document was opened) over the\n        // on-disk text; get_file_content falls back to reading the file.\n        if let Some(content) = self.get_file_content(&canonical) {\n            self.analyze_file(file_path.to_path_buf(), &content);\n        }",
@@ -277,3 +277,36 @@ v("C01", "same_file_takes_first", [("src/fixtures/resolver.rs",
   "            .max_by_key(|def| def.line)",
   "            .min_by_key(|def| def.line)")],
   r"R5e\|.*same-file stage is min_by_key")
+
+v("C13", "third_party_by_absolute_path", [("src/fixtures/analyzer.rs",
+  "            let is_third_party = self.is_in_site_packages(file_path)\n                || self.is_editable_install_third_party(file_path);",
+  "            let is_third_party = file_path.to_string_lossy().contains(\"site-packages\")\n                || self.is_editable_install_third_party(file_path);")],
+  r"R10a2\|.*visit_stmt\|contains\(site-packages\)")
+v("C17", "textual_path_prefix", [("src/fixtures/undeclared.rs",
+  "                    && file_path.starts_with(def.file_path.parent().unwrap_or(Path::new(\"\")))",
+  "                    && file_path.to_string_lossy().starts_with(def.file_path.parent().unwrap_or(Path::new(\"\")).to_string_lossy().as_ref())")],
+  r"R10i\|.*is_available_fixture")
+v("C06", "analyze_file_fast_path", [("src/fixtures/analyzer.rs",
+  "    pub fn analyze_file(&self, file_path: PathBuf, content: &str) {\n        self.analyze_file_internal(file_path, content, true);",
+  "    pub fn analyze_file(&self, file_path: PathBuf, content: &str) {\n        if content.len() == usize::MAX {\n            return;\n        }\n        self.analyze_file_internal(file_path, content, true);")],
+  r"R3h\|.*analyze_file")
+v("C07", "cheap_fingerprint_stamp", [("src/fixtures/mod.rs",
+  "    pub(crate) fn get_line_index(&self, file_path: &Path, content: &str) -> Arc<Vec<usize>> {\n        let content_hash = Self::hash_content(content);",
+  "    pub(crate) fn get_line_index(&self, file_path: &Path, content: &str) -> Arc<Vec<usize>> {\n        let content_hash = content.len() as u64;")],
+  r"R3d-stamp\|line_index_cache")
+v("C19", "uri_to_path_not_canonical", [("src/providers/mod.rs",
+  "                Some(path.canonicalize().unwrap_or(path))",
+  "                Some(path)")],
+  r"R2e\|")
+v("C20", "text_loop_skips_entries", [("src/main.rs",
+  "            let relative_path = file_path\n                .strip_prefix(&canonical_path)\n                .unwrap_or(file_path)\n                .to_string_lossy();\n            println!(\n                \"  {} {} in {}\",",
+  "            let Ok(relative_path) = file_path.strip_prefix(&canonical_path) else {\n                continue;\n            };\n            let relative_path = relative_path.to_string_lossy();\n            println!(\n                \"  {} {} in {}\",")],
+  r"R11b\|text loop can skip")
+v("C03", "first_indirect_mark_only", [("src/fixtures/analyzer.rs",
+  "        for decorator in decorator_list {\n            let indirect_fixtures = decorators::extract_parametrize_indirect_fixtures(decorator);\n            for (fixture_name, range) in indirect_fixtures {",
+  "        {\n            let indirect_fixtures = decorator_list\n                .iter()\n                .map(decorators::extract_parametrize_indirect_fixtures)\n                .find(|f| !f.is_empty())\n                .unwrap_or_default();\n            for (fixture_name, range) in indirect_fixtures {")],
+  r"R6d\|.*find over extract_parametrize_indirect_fixtures")
+v("C12", "fresh_visited_set_on_recursion", [("src/fixtures/imports.rs",
+  "                let transitive = self.get_imported_fixtures(&resolved_canonical, visited);\n                imported_fixtures.extend(transitive);\n            }\n        }\n\n        imported_fixtures\n    }",
+  "                let mut fresh: HashSet<PathBuf> = HashSet::new();\n                let transitive = self.get_imported_fixtures(&resolved_canonical, &mut fresh);\n                imported_fixtures.extend(transitive);\n            }\n        }\n\n        imported_fixtures\n    }")],
+  r"R1d\|.*compute_imported_fixtures\+.*get_imported_fixtures")
